@@ -75,6 +75,10 @@ def run_case(case):
     mon = Mon(trace_len=40)
     aw, dw, gran = case["aw"], case["dw"], case["gran"]
     b = csr.Builder(addr_width=aw, data_width=dw, granularity=gran)
+    # a second, independent builder is filled while the first one is in use (also from inside its open scopes):
+    # builders must not influence each other
+    b2 = csr.Builder(addr_width=max(aw, 6), data_width=dw, granularity=gran)
+    regs2 = []
     ratio = dw // gran
     regs = []                # model: accepted registers in order
     keep = []
@@ -85,8 +89,23 @@ def run_case(case):
         r = csr.Register({"f": csr.Field(action.R, w)}, access="r")
         keep.append(r)
         return r, w
+    # noqa: the width returned is the element width
+
+    def do_add_other():
+        r, w = mkreg()
+        w = min(w, 2 * dw)
+        name = "o%d" % len(keep)
+        try:
+            out, raised = b2.add(name, r), None
+        except Exception as e:
+            out, raised = None, e
+        mon.log(f"other builder: add({name!r}, width={r.element.width}) while first builder's scope is {st['scope']}")
+        mon.ok("other_builder_add", raised is None and out is r, f"independent builder refused a valid add: {raised!r}")
+        regs2.append((id(r), (name,), None, r.element.width))
 
     def do_add():
+        if rng.random() < 0.12 and len(regs2) < 12:
+            do_add_other()
         r, w = mkreg()
         name = "r%d" % len(keep) if rng.random() < 0.85 else rng.choice(["a", "b", "ab", "blk"])
         offset = None
@@ -195,6 +214,17 @@ def run_case(case):
                 mon.eq("layout_eq", got, layout, "resources() of as_memory_map()")
                 mon.count("scope_names", sum(1 for _k, n, _r in layout if len(n) > 1))
                 mon.ok("map_geometry", m.addr_width == aw and m.data_width == dw, "geometry of the produced map")
+        if regs2:
+            verdict2, layout2 = model_layout(regs2, max(aw, 6), dw, gran)
+            try:
+                m2, raised2 = b2.as_memory_map(), None
+            except Exception as e:
+                m2, raised2 = None, e
+            if verdict2 == "ok":
+                mon.ok("other_builder_layout", raised2 is None, f"independent builder: as_memory_map() raised {raised2!r}")
+                if m2 is not None:
+                    mon.eq("other_builder_layout", [(id(r), tuple(n), tuple(rg)) for r, n, rg in m2.resources()], layout2,
+                           "layout of the independent builder (names must not carry the first builder's scopes)")
         st["frozen"] = True
         # after as_memory_map the builder is frozen
         r, w = mkreg()
